@@ -245,6 +245,15 @@ def unit_schedule(tier, pid):
     return {'functions': out}
 
 
+def unit_scheduler_init(tier, pid):
+    out = []
+    for given in (True, False):
+        w = sk.make_init_world()
+        res = verify_function(w, sk.init_contract(given), setup=sk.init_setup(given), extra_check=sk.init_check)
+        out.append(prop.discharge(res, tier, pid, lambda m, r: {'note': 'see model text'}, replay_native([SWEEP_SMALL])))
+    return {'functions': out}
+
+
 def unit_og(tier, pid, which='all'):
     from . import sched_og as og
     sw.make_world()       # declares the TaskStatus enum from the source
